@@ -14,7 +14,8 @@ let probes : (string * V.value) list =
   List.map (fun w -> (w, value_of_wire w))
     [ "str:" ^ hx "zq"; "str:" ^ hx "javascript:alert(1)"; "safe:html:" ^ hx "<i>h</i>"; "safe:script:" ^ hx "s()";
       "safe:style:" ^ hx "c:d;"; "safe:stylesheet:" ^ hx "a{}"; "safe:url:" ^ hx "http://u/"; "safe:tru:" ^ hx "/t.js";
-      "safe:identifier:" ^ hx "idz"; "str:" ^ hx "_blank"; "str:" ^ hx "auto"; "str:" ^ hx "async"; "str:" ^ hx "lazy" ]
+      "safe:identifier:" ^ hx "idz"; "str:" ^ hx "_blank"; "str:" ^ hx "auto"; "str:" ^ hx "async"; "str:" ^ hx "lazy";
+      "str:" ^ hx "_BLANK"; "str:" ^ hx "Auto"; "str:" ^ hx "ASYNC"; "str:" ^ hx "Lazy"; "str:" ^ hx "RTL"; "str:" ^ hx "_blan\xe2\x84\xaa"; "str:" ^ hx "_\xc5\xbfelf"; "str:" ^ hx " ltr"; "str:" ^ hx "eager\n" ]
 
 let dot_pipe : V.pipe = { V.p_decls = []; p_cmds = [[V.ADot]] }
 
@@ -118,6 +119,17 @@ let () =
       match v1, v2 with
       | Some c, _ -> specfail id ("branch_element_" ^ e1 ^ ":" ^ c)
       | _, Some c -> specfail id ("branch_element_" ^ e2 ^ ":" ^ c)
+      | None, None -> ok id (if f.(6) = "ok" then "+accept" else "deny"));
+  (* cond_attr id <elem> <a1> <a2> <variant> <outcome C=true> <results> <outcome C=false> <results> *)
+  reg "cond_attr" (fun f ->
+      let id = f.(1) in
+      let str i = string_of_bytes (bytes_of_hex f.(i)) in
+      let elem = str 2 and a1 = str 3 and a2 = str 4 in
+      let v1 = cell_spec_violation ~elem ~attr:a1 ~quote:"dq" ~rel:"" ~outcome:f.(6) ~results:(String.split_on_char ',' f.(7)) in
+      let v2 = cell_spec_violation ~elem ~attr:a2 ~quote:"dq" ~rel:"" ~outcome:f.(8) ~results:(String.split_on_char ',' f.(9)) in
+      match v1, v2 with
+      | Some c, _ -> specfail id ("branch_attribute_" ^ a1 ^ ":" ^ c)
+      | _, Some c -> specfail id ("branch_attribute_" ^ a2 ^ ":" ^ c)
       | None, None -> ok id (if f.(6) = "ok" then "+accept" else "deny"));
   (* partial_cell id <element> <attr> <static prefix> <accepted|refused> <output>: a static prefix before
      the action in an attribute whose REVIEWED class is enumerated must make the analysis refuse *)
